@@ -811,9 +811,10 @@ show_line(const YYLTYPE &loc) const {
 
     // Strip off trailing whitespace.
     size_t last = linestr.length();
-    while (isspace(linestr[--last])) {
-      linestr = linestr.substr(0, last);
+    while (last > 0 && isspace((unsigned char)linestr[last - 1])) {
+      --last;
     }
+    linestr.resize(last);
 
     indent(cerr, indent_level) << linestr << "\n";
 
